@@ -737,6 +737,7 @@ func wrapRestart(c *run.Ctx, levels []int, nrec int, props ...string) {
 	w.WaitIdle(sim.StepTimeout)
 	// a window across the wrap: the broker goes silent at a drawn stage per message
 	recs := 0
+	lateRecs := c.Rng.Intn(2) == 0 // the PUBRECs arrive after all PUBLISH records were saved
 	w.Mu.Lock()
 	w.TakeSnaps = true
 	w.DataCap = 1 << 12
@@ -744,7 +745,7 @@ func wrapRestart(c *run.Ctx, levels []int, nrec int, props ...string) {
 		switch reply[0] >> 4 {
 		case wire.PUBREC:
 			recs++
-			if recs <= nrec {
+			if recs <= nrec && !lateRecs {
 				return ""
 			}
 		}
@@ -761,6 +762,16 @@ func wrapRestart(c *run.Ctx, levels []int, nrec int, props ...string) {
 		}
 	}
 	w.WaitIdle(sim.StepTimeout)
+	if lateRecs {
+		sent := 0
+		for _, h := range w.Broker.TakeHeld() {
+			if h.Bytes[0]>>4 == wire.PUBREC && sent < nrec && h.Conn.Alive() {
+				h.Conn.Send(h.Bytes, "PUBREC (after the later PUBLISH records were saved)")
+				sent++
+			}
+		}
+		w.WaitIdle(sim.StepTimeout)
+	}
 	all := d.PubsSnapshot()
 	a := analyzePubs(ep, all, false)
 	reportPubs(c, ep, a, all, props...)
@@ -831,7 +842,7 @@ func init() {
 		ChunkSize:    2,
 		ChildTimeout: 600,
 		Parallel:     10,
-		Rule:         "four scenarios by case number. (windows) every pair (AtLeastOnceMax, ExactlyOnceMax) from {0,1,2,3,7,16383,16384,-1,16385,100000}^2 is drawn in turn: both windows are filled against a silent broker, exactly the normalised maximum must be accepted, the next two publishes must return ErrMax at once (goroutine + structural wedge detection) without a Persistence operation, the other level stays independent; after the broker answers, capacity is back and a refilled window hits the same limit. (history) 16,384+N publishes per level (thorough: up to 70,000, four wraps) from one goroutine per level while the broker withholds and releases acknowledgements so that the in-flight window keeps changing (1..64, or the maximum itself), optionally with injected Save failures and denied publishes in between; every ErrMax must coincide with a full window. (unordered) k (quick 40-512, thorough 512) subscribe/unsubscribe requests open at once, requests beyond the slot limit, a third abandoned by quit and replaced, answers released late; then one request kept open while 8,200 others run so that the identifier counter meets it. (restart) C02's stop-point enumeration restricted to stop points whose pending range lies across the 14-bit wrap, two generations. Oracles: identifiers on the wire inside the range of their kind; an identifier is given to another message only after the record of the previous holder was removed (store and wire trace); no two subscribe/unsubscribe requests in flight share an identifier (wire write to call return); accepted minus finally acknowledged never exceeds the normalised maximum (final acknowledgements counted when handed to the client's Read). Non-trivial: a limit probe, an identifier wrap, or a counter round; distinct by configuration and scenario parameters.",
+		Rule:         "four scenarios by case number. (windows) every pair (AtLeastOnceMax, ExactlyOnceMax) from {0,1,2,3,7,16383,16384,-1,16385,100000}^2 is drawn in turn: both windows are filled against a silent broker, exactly the normalised maximum must be accepted, the next two publishes must return ErrMax at once (goroutine + structural wedge detection) without a Persistence operation, the other level stays independent; after the broker answers, capacity is back and a refilled window hits the same limit. (history) 16,384+N publishes per level (thorough: up to 70,000, four wraps) from one goroutine per level while the broker withholds and releases acknowledgements so that the in-flight window keeps changing (1..64, or the maximum itself), optionally with injected Save failures and denied publishes in between; every ErrMax must coincide with a full window. (unordered) k (quick 40-512, thorough 512) subscribe/unsubscribe requests open at once, requests beyond the slot limit, a third abandoned by quit and replaced, answers released late; then one request kept open while 8,200 others run so that the identifier counter meets it; and requests canceled during a pending reconnect, others abandoned with the answer owed, new ones after them (no identifier goes out again while the broker owes an answer under it). (restart) C02's stop-point enumeration restricted to stop points whose pending range lies across the 14-bit wrap, two generations. Oracles: identifiers on the wire inside the range of their kind; an identifier is given to another message only after the record of the previous holder was removed (store and wire trace); no two subscribe/unsubscribe requests in flight share an identifier (wire write to call return); accepted minus finally acknowledged never exceeds the normalised maximum (final acknowledgements counted when handed to the client's Read). Non-trivial: a limit probe, an identifier wrap, or a counter round; distinct by configuration and scenario parameters.",
 		Assumptions: []string{
 			"in-flight is counted from API returns and bytes handed to Read, which never exceeds the client's own count",
 			"the broker answers in order per acknowledgement type; the long-open subscribe is answered by hand",
@@ -863,6 +874,11 @@ func init() {
 				}
 				c17History(c, n, m1, m2, c.Rng.Intn(2) == 0)
 			case 2:
+				if c.Case%8 == 6 {
+					// identifiers across a canceled and an abandoned request around a reconnect
+					c11PendingConnect(c, 3)
+					return
+				}
 				k := []int{40, 100, 512}[c.Rng.Intn(3)]
 				if thorough {
 					k = 512
